@@ -148,4 +148,10 @@ var plans = map[string]plan{
 		Rule:     "cases are (query / header / cookie parameters of kind integer, string, array with every explode setting, each present or absent, with or without a schema default; a JSON body schema with defaults in seven positions: plain property, nested object, object-valued default with a nested default, allOf member, oneOf branch, anyOf branch, array items; a body sending any subset of those properties, valid or invalid; SkipSettingDefaults; no security / callback passing or failing, reading the body or not; server-style one-shot body or client-style body with GetBody). Checked after ValidateRequest: the shared document is unchanged; the body reads back in full (original bytes when skipping, failing or nothing defaulted; otherwise JSON equal to the original plus exactly the defaults of the matched branches, with a consistent ContentLength); skipping leaves query and headers identical; every absent parameter with a default decodes to that default and no other parameter appears; the forwarded request validates again; a second validation changes nothing. non-trivial = a default actually applies and (a nested / composed / array-item default, an array parameter default, a body-reading callback, or a server-style body). distinct = FNV-64a of the canonical case JSON.",
 		Assume:   []string{"expected defaults come from a reference injection over the raw schema along the branches the value matches (branches are mutually exclusive by a required constant 'kind')", "decoded parameter values are read through the verif hook (C05 ties the decoder to the specification)"},
 	},
+	"C14": {
+		Quick:    []stage{enumStage(), rapidStage(3_000)},
+		Thorough: []stage{enumStage(), rapidStage(150_000)},
+		Rule:     "cases are (request kind unroutable / routable-invalid / valid; handler script = sequence of Header().Set, WriteHeader, Write of marker-carrying chunks that together form valid or invalid JSON, Flush; strict flag; default or recording error callback; front = Validator.Middleware, ValidationHandler.ServeHTTP, ValidationHandler.Middleware). enum stage: every script of length <= 3 over an 11-action alphabet x strict x callback for valid requests, and the first 200 scripts x the other request kinds and fronts, complete; rapid stage: scripts up to length 8. Oracle: differential run of the same script against a recorder exposing the same optional interfaces the handler sees through the wrapper, plus the gating model (handler runs iff routed and valid; 404 'not found' / 400 'bad request' or exactly one error-callback call otherwise; strict + invalid response => 500 'server error' and no handler chunk reaches the client). non-trivial = the script is not the plain WriteHeader;Write pair, or the request is not valid. distinct = FNV-64a of the canonical case JSON.",
+		Assume:   []string{"whether the handler's response is valid is decided by ValidateResponse on the reference run's output (C08 covers that function)", "1xx interim statuses are not generated"},
+	},
 }
